@@ -50,6 +50,8 @@ def phases(tier):
         {"name": "tt3", "runs": 400 if q else 60000, "params": {"h": "tt3"}},
         {"name": "dep", "runs": 500 if q else 30000, "params": {"h": "dep"}},
         {"name": "app", "runs": 400 if q else 30000, "params": {"h": "app"}},
+        # the same link controller objects serve a second link (checks/c07_relink.py)
+        {"name": "relink", "runs": 300 if q else 30000, "params": {"h": "relink"}},
     ]
 
 
@@ -471,6 +473,9 @@ def run_tt3(sim, params):
 
 def run_one(sim, params):
     h = params["h"]
+    if h == "relink":
+        from checks import c07_relink
+        return c07_relink.run(sim, params)
     if h == "llcp":
         return run_llcp(sim, params)
     if h == "short":
